@@ -133,7 +133,11 @@ impl<'a> Lexer<'a> {
                             break;
                         }
                     }
-                    if w == "from" && targets > 0 {
+                    // `from` is always the keyword (nitrogql: a fragment of that name cannot be imported by name)
+                    if w == "from" {
+                        if targets == 0 {
+                            return false;
+                        }
                         while matches!(self.peek(j), Some(' ') | Some('\t') | Some(',') | Some('\u{FEFF}')) {
                             j += 1;
                         }
